@@ -65,6 +65,10 @@ def _sig(params, rng, is_mw, bad_next, allow_kwonly, allow_posonly, extra_next=N
             parts.append('request')       # something else first, next second
             parts.append('next')
             req = [r_ for r_ in req if r_ != 'request']
+            opt = [r_ for r_ in opt if r_ != 'request']            # (wherever `request` was declared: it is the first
+            kw = [(nm, d) for nm, d in kw if nm != 'request']      # positional parameter of this malformed function now)
+            po = [r_ for r_ in po if r_ != 'request']
+            po_opt = [r_ for r_ in po_opt if r_ != 'request']
         elif bad_next == 'absent':
             pass
         else:
@@ -294,6 +298,14 @@ def build(rec, seed=0, kwonly=True, posonly=False, carriers=True, methods=None):
             b.decoy = dnames
         except Exception as e:  # noqa  (not part of the configuration under test)
             b.decoy = 'not-added: %r' % (e,)
+    # the application object is ALSO mounted into an unrelated parent (binding is non-destructive: requests served by
+    # b.app itself must still see b.app as _application, its own routes as _route, its own resources)
+    b.elsewhere = None
+    if rng.random() < 0.5:
+        try:
+            b.elsewhere = Application([('/elsewhere', b.app)], resources=dict((nm, ResObj(nm)) for nm in rec['res']))
+        except Exception as e:  # noqa  (not part of the configuration under test)
+            b.elsewhere = 'not-embedded: %r' % (e,)
     return b
 
 
